@@ -216,18 +216,21 @@ def h_agc(H):
         c0, t0 = z3.Int(fresh_name("c0")), z3.Int(fresh_name("t0"))
         it.ctx.assume(z3.And(c0 >= 0, c0 < nc, t0 >= 0, t0 < ns))
         sums = [r for r in it.ctx.reduce_log if r["name"] == "sum"]
-        # the row sum of non negative numbers is non negative and bounds nothing else: stated for the two row sums the code takes
-        for r in sums:
+        # A-NP-SPEC (sum), stated for the row sums the code takes: a sum of non negative numbers is non negative and at least each of its terms
+        tq = z3.Int(fresh_name("tq"))
+        for q, r in enumerate(sums):
             if len(r["in_shape"]) == 2:
-                it.ctx.assume(r["out"](c0) >= 0)          # a sum of non negative numbers
+                it.ctx.oblige(f"agc.lemma.summands_non_negative.{q}", A.forall([tq], lambda: z3.Implies(z3.And(tq >= 0, tq < ns), r["input"]((c0, tq)) >= 0)), "lemma", "antecedent of the sum axiom")
+                it.ctx.assume(z3.And(r["out"](c0) >= 0, r["out"](c0) >= r["input"]((c0, t0))))
         if len(sums) >= 2:
             # linearity of summation (A-NP-SPEC): sum_t (g[c,t] + k_c) == sum_t g[c,t] + ns * k_c  with k_c = sum_t g[c,t] * epsilon / ns
             s1, s2 = sums[-2]["out"](c0), sums[-1]["out"](c0)
             it.ctx.assume(s2 == s1 + s1 * eps)
-        live = gain.read((c0, t0)) != 0
-        it.ctx.oblige("agc.product_on_live", z3.Implies(sums[-1]["out"](c0) != 0, out.read((c0, t0)) * gain.read((c0, t0)) == x0((c0, t0))) if sums else z3.BoolVal(False), "post",
-                      "on channels that are not dead the returned data times the returned gain is the input", assume=False)
-        it.ctx.oblige("agc.dead_untouched", z3.Implies(sums[-1]["out"](c0) == 0, out.read((c0, t0)) == x0((c0, t0))) if sums else z3.BoolVal(False), "post", assume=False)
+        # stated on the returned values only (no reference to how the code decides that a channel is dead)
+        it.ctx.oblige("agc.product_on_live", z3.Implies(gain.read((c0, t0)) != 0, out.read((c0, t0)) * gain.read((c0, t0)) == x0((c0, t0))), "post",
+                      "wherever the returned gain is not zero, the returned data times the returned gain is the input", assume=False)
+        it.ctx.oblige("agc.dead_untouched", z3.Implies(gain.read((c0, t0)) == 0, out.read((c0, t0)) == x0((c0, t0))), "post", "where the gain is zero (dead channels) the data are returned as they came", assume=False)
+        it.ctx.oblige("agc.gain_non_negative", gain.read((c0, t0)) >= 0, "post", assume=False)
         it.ctx.oblige("agc.gain_from_abs", conv["in"]((c0, t0)) == z3.If(x0((c0, t0)) >= 0, x0((c0, t0)), -x0((c0, t0))), "post", "the gain is a smoothed |x|", assume=False)
     S.explore(body)
 
